@@ -173,3 +173,182 @@ func TestC16Sched(t *testing.T) {
 	}
 	RunCheck(t, c)
 }
+
+// ---------------------------------------------------------------------------
+// C19: crash points inside an invalidation
+
+// execC19Crash runs the history once to find the store operations of the unsafe exchange and
+// then once per operation with the process "dying" right before it: whatever was reachable from
+// an invalidated URI's index before must not survive its index.
+func execC19Crash(t *testing.T, sc *world.Scenario) (*oracle.Result, string) {
+	total := oracle.NewResult()
+	run := func(s *world.Scenario) (*world.Obs, string) {
+		obs := world.Run(t, s)
+		if obs.Fatal != "" {
+			return nil, obs.Fatal
+		}
+		return obs, ""
+	}
+	if len(sc.Faults) > 0 {
+		obs, p := run(sc)
+		if p != "" {
+			return nil, p
+		}
+		res := oracle.C19Crash(obs)
+		res.Evals = 1
+		return res, ""
+	}
+	base, p := run(sc)
+	if p != "" {
+		return nil, p
+	}
+	for _, ex := range base.Exchanges {
+		safe := ex.Req.Method == "GET" || ex.Req.Method == "HEAD" || ex.Req.Method == "OPTIONS"
+		if safe {
+			continue
+		}
+		for _, op := range base.Ops {
+			if op.Ex != ex.Idx {
+				continue
+			}
+			cp := *sc
+			cp.Faults = []world.Fault{{At: op.N, Kind: "crash"}}
+			obs, p := run(&cp)
+			if p != "" {
+				continue
+			}
+			total.Evals++
+			total.NTKeys = append(total.NTKeys, fmt.Sprintf("%s/crash@%d", sc.Hash(), op.N))
+			res := oracle.C19Crash(obs)
+			for l, n := range res.Labels {
+				total.Labels[l] += n
+			}
+			if len(res.Violations) > 0 {
+				total.Violations = res.Violations
+				total.Replay = &cp
+				return total, ""
+			}
+		}
+	}
+	total.NonTrivial = len(total.NTKeys) > 0
+	return total, ""
+}
+
+func TestC19Crash(t *testing.T) {
+	c := Check{Prop: "C19", Exec: execC19Crash}
+	c.Gen = func(rt *rapid.T) *world.Scenario {
+		sc := &world.Scenario{Prop: "C19", Backend: gen.Pick(rt, "backend", "mem", "mem", "fs")}
+		urls := []string{"http://a.test/c19/a", "http://a.test/c19/b"}
+		for i := 0; i < rapid.IntRange(2, 5).Draw(rt, "fill"); i++ {
+			lbl := fmt.Sprintf("f%d", i)
+			rq := &world.Req{Method: "GET", URL: urls[gen.Weighted(rt, lbl+"-u", 60, 40)], Header: [][2]string{gen.H("X-A", gen.Pick(rt, lbl+"-xa", "1", "2", "3"))}}
+			rq.Uncond = world.Reply{Kind: "resp", Status: 200, Body: world.Body{Len: 12}, Header: [][2]string{gen.H("Date", "$T+0"), gen.H("Cache-Control", "max-age=1000"), gen.H("Etag", `"v$S"`), gen.H("Vary", gen.Pick(rt, lbl+"-vary", "X-A", "X-A", "*", ""))}}
+			sc.Steps = append(sc.Steps, gen.ReqStep(rq))
+		}
+		un := &world.Req{Method: gen.Pick(rt, "m", "POST", "DELETE", "PUT", "PATCH"), URL: urls[0]}
+		un.Uncond = world.Reply{Kind: "resp", Status: gen.Pick(rt, "st", 200, 204), Body: world.Body{Len: 4}, Header: [][2]string{gen.H("Date", "$T+0")}}
+		if loc := gen.Pick(rt, "loc", "", "/c19/b", "/c19/b", "/c19/a"); loc != "" {
+			un.Uncond.Header = append(un.Uncond.Header, gen.H(gen.Pick(rt, "locf", "Location", "Content-Location"), loc))
+		}
+		sc.Steps = append(sc.Steps, gen.ReqStep(un), world.Step{Op: "reopen"})
+		for i, u := range urls {
+			rq := &world.Req{Method: "GET", URL: u, Header: [][2]string{gen.H("X-A", "1")}}
+			rq.Uncond = world.Reply{Kind: "resp", Status: 200, Body: world.Body{Len: 12}, Header: [][2]string{gen.H("Date", "$T+0"), gen.H("Cache-Control", "max-age=1000"), gen.H("Etag", `"v$S"`), gen.H("Vary", "X-A")}}
+			_ = i
+			sc.Steps = append(sc.Steps, gen.ReqStep(rq))
+		}
+		return sc
+	}
+	RunCheck(t, c)
+}
+
+// ---------------------------------------------------------------------------
+// C07 under all interleavings of an invalidation with a concurrent GET
+
+func execC07Sched(t *testing.T, sc *world.Scenario) (*oracle.Result, string) {
+	total := oracle.NewResult()
+	if len(sc.Sched) > 0 {
+		obs := world.Run(t, sc)
+		if p := oracle.HarnessProblem(obs); p != "" {
+			return nil, p
+		}
+		res := oracle.C07(obs)
+		res.Evals = 1
+		return res, ""
+	}
+	limit := envInt("VERIF_C16_MAXSCHED", 300)
+	var sched []int
+	for runs := 0; runs < limit; runs++ {
+		cp := *sc
+		cp.Controlled = true
+		cp.Sched = append([]int(nil), sched...)
+		obs := world.Run(t, &cp)
+		if p := oracle.HarnessProblem(obs); p != "" {
+			return nil, p
+		}
+		total.Evals++
+		total.NTKeys = append(total.NTKeys, sc.Hash()+"/"+fmt.Sprint(cp.Sched))
+		res := oracle.C07(obs)
+		for l, n := range res.Labels {
+			total.Labels[l] += n
+		}
+		if len(res.Violations) > 0 {
+			total.Violations = res.Violations
+			if len(cp.Sched) == 0 {
+				cp.Sched = []int{0}
+			}
+			total.Replay = &cp
+			return total, ""
+		}
+		alts := obs.Alts
+		for len(sched) < len(alts) {
+			sched = append(sched, 0)
+		}
+		sched = sched[:len(alts)]
+		i := len(sched) - 1
+		for i >= 0 && sched[i]+1 >= alts[i] {
+			i--
+		}
+		if i < 0 {
+			total.Label("schedule-space-exhausted")
+			break
+		}
+		sched[i]++
+		sched = sched[:i+1]
+	}
+	total.NonTrivial = true
+	return total, ""
+}
+
+// TestC07Sched: an unsafe request races with GETs of the URIs it invalidates; afterwards the
+// entries stored before it must not come back.
+func TestC07Sched(t *testing.T) {
+	c := Check{Prop: "C07", Exec: execC07Sched}
+	c.Gen = func(rt *rapid.T) *world.Scenario {
+		sc := &world.Scenario{Prop: "C07", Backend: "mem"}
+		a, b := "http://a.test/c07/a", "http://a.test/c07/b"
+		get := func(lbl, u, xa string) *world.Req {
+			rq := &world.Req{Method: "GET", URL: u, Header: [][2]string{gen.H("X-A", xa)}}
+			rq.Uncond = world.Reply{Kind: "resp", Status: 200, Body: world.Body{Len: 12}, Header: [][2]string{gen.H("Date", "$T+0"), gen.H("Cache-Control", "max-age=100000"), gen.H("Etag", `"v$S"`), gen.H("Vary", "X-A")}}
+			rq.Cond = gen.Simple304()
+			return rq
+		}
+		sc.Steps = append(sc.Steps, gen.ReqStep(get("f0", b, "1")))
+		if gen.Pct(rt, "fillA", 60) {
+			sc.Steps = append(sc.Steps, gen.ReqStep(get("f1", a, "1")))
+		}
+		un := &world.Req{Method: gen.Pick(rt, "m", "POST", "PUT", "DELETE"), URL: a}
+		un.Uncond = world.Reply{Kind: "resp", Status: gen.Pick(rt, "st", 200, 204, 201), Body: world.Body{Len: 4}, Header: [][2]string{gen.H("Date", "$T+0")}}
+		if loc := gen.Pick(rt, "loc", "/c07/b", "/c07/b", "http://a.test/c07/b", ""); loc != "" {
+			un.Uncond.Header = append(un.Uncond.Header, gen.H(gen.Pick(rt, "locf", "Location", "Content-Location"), loc))
+		}
+		racer := get("r", gen.Pick(rt, "racer-url", b, b, a), gen.Pick(rt, "racer-xa", "2", "2", "1"))
+		sc.Threads = [][]*world.Req{{un}, {racer}}
+		if gen.Pct(rt, "third", 30) {
+			sc.Threads = append(sc.Threads, []*world.Req{get("r2", b, "3")})
+		}
+		sc.After = []world.Step{gen.ReqStep(get("a0", b, "1")), gen.ReqStep(get("a1", a, "1")), gen.ReqStep(get("a2", b, "2"))}
+		return sc
+	}
+	RunCheck(t, c)
+}
